@@ -114,3 +114,91 @@ Proof.
   intros Hwf. unfold regions. destruct (sections_spec N areas Hwf) as (_ & _ & _ & lo & Hinv).
   eapply hulls_ordered_rev_map; [eapply inv_hulls_ordered; exact Hinv|reflexivity].
 Qed.
+
+(* ---------- numbering invariant ---------- *)
+Definition num_inv (st : list Z * numbering) : Prop :=
+  NoDup (fst st) /\ forall j x, nth_error (fst st) j = Some x -> number_of x (snd st) = Some (Z.of_nat j + 1).
+
+Lemma renumber_other : forall t j m y, ~ In y t -> number_of y (renumber t j m) = number_of y m.
+Proof.
+  induction t as [|x t IH]; intros j m y Hy; cbn [renumber]; [reflexivity|].
+  rewrite IH by (intros H; apply Hy; right; exact H). cbn [number_of].
+  destruct (y =? x) eqn:E; [exfalso; apply Hy; left; lia|reflexivity].
+Qed.
+
+Lemma renumber_at : forall t j m k y, NoDup t -> nth_error t k = Some y ->
+  number_of y (renumber t j m) = Some (j + Z.of_nat k).
+Proof.
+  induction t as [|x t IH]; intros j m k y Hnd Hk; [destruct k; discriminate|].
+  inversion Hnd as [|? ? Hx Hnd']; subst. cbn [renumber]. destruct k as [|k].
+  - cbn in Hk. inversion Hk; subst. rewrite renumber_other by exact Hx. cbn [number_of].
+    replace (y =? y) with true by lia. f_equal. lia.
+  - cbn in Hk. rewrite (IH (j + 1) _ k y Hnd' Hk). f_equal. lia.
+Qed.
+
+Lemma nth_error_firstn_lt {A} : forall (l : list A) n j, (j < n)%nat -> nth_error (firstn n l) j = nth_error l j.
+Proof.
+  induction l as [|x l IH]; intros n j H; [destruct n, j; reflexivity|].
+  destruct n as [|n]; [lia|]. destruct j as [|j]; [reflexivity|]. cbn. apply IH. lia.
+Qed.
+Lemma NoDup_app_r {A} : forall (a b : list A), NoDup (a ++ b) -> NoDup b.
+Proof. induction a as [|x a IH]; intros b H; [exact H|]. inversion H; subst. apply IH. assumption. Qed.
+Lemma NoDup_app_disj {A} : forall (a b : list A) y, NoDup (a ++ b) -> In y a -> In y b -> False.
+Proof.
+  induction a as [|x a IH]; intros b y H Ha Hb; [destruct Ha|].
+  cbn in H. inversion H; subst. destruct Ha as [->|Ha]; [apply H2; apply in_or_app; right; exact Hb|eapply IH; eassumption].
+Qed.
+
+Lemma add_at_inv index x st : num_inv st -> ~ In x (fst st) -> (index <= length (fst st))%nat ->
+  num_inv (add_at index x st).
+Proof.
+  destruct st as [l m]. cbn [fst snd]. intros [Hnd Hnum] Hx Hidx. unfold add_at. cbn [fst snd].
+  assert (Hsplit : l = firstn index l ++ skipn index l) by (symmetry; apply firstn_skipn).
+  assert (Hnd2 : NoDup (firstn index l ++ x :: skipn index l)).
+  { apply NoDup_Add with (a := x) (l := firstn index l ++ skipn index l).
+    - apply Add_app.
+    - rewrite <- Hsplit. split; assumption. }
+  split; [exact Hnd2|].
+  intros j y Hj. cbn [fst snd] in Hj |- *.
+  assert (Hlen : length (firstn index l) = index) by (apply firstn_length_le; exact Hidx).
+  destruct (Nat.lt_ge_cases j index) as [Hlt|Hge].
+  - (* before the insertion point: untouched *)
+    rewrite nth_error_app1 in Hj by (rewrite Hlen; exact Hlt).
+    assert (Hyf : In y (firstn index l)) by (eapply nth_error_In; exact Hj).
+    assert (Hy : ~ In y (x :: skipn index l)).
+    { intros [<-|Hin].
+      - apply Hx. rewrite Hsplit. apply in_or_app. left. exact Hyf.
+      - rewrite Hsplit in Hnd. exact (NoDup_app_disj _ _ y Hnd Hyf Hin). }
+    rewrite renumber_other by exact Hy. apply Hnum.
+    rewrite <- Hj. symmetry. apply nth_error_firstn_lt. exact Hlt.
+  - (* at or after the insertion point: renumbered *)
+    rewrite nth_error_app2 in Hj by (rewrite Hlen; exact Hge). rewrite Hlen in Hj.
+    assert (Hnd3 : NoDup (x :: skipn index l)).
+    { constructor.
+      - intros Hin. apply Hx. rewrite Hsplit. apply in_or_app. right. exact Hin.
+      - rewrite Hsplit in Hnd. apply NoDup_app_r in Hnd. exact Hnd. }
+    rewrite (renumber_at _ _ _ (j - index) y Hnd3 Hj). f_equal. lia.
+Qed.
+
+Lemma clear_inv st : num_inv (clear st).
+Proof. split; [constructor|]. intros j x H. destruct j; discriminate. Qed.
+
+(* histories: any sequence of adds (fresh features at admissible indexes) and clears *)
+Inductive op := OAdd (index : nat) (x : Z) | OClear.
+Definition apply_op (st : list Z * numbering) (o : op) : list Z * numbering :=
+  match o with OAdd i x => add_at i x st | OClear => clear st end.
+Fixpoint admissible (st : list Z * numbering) (ops : list op) : Prop :=
+  match ops with
+  | [] => True
+  | o :: r => match o with
+              | OAdd i x => ~ In x (fst st) /\ (i <= length (fst st))%nat
+              | OClear => True
+              end /\ admissible (apply_op st o) r
+  end.
+
+Lemma history_inv : forall ops st, num_inv st -> admissible st ops -> num_inv (fold_left apply_op ops st).
+Proof.
+  induction ops as [|o ops IH]; intros st Hinv Hadm; cbn [fold_left]; [exact Hinv|].
+  destruct Hadm as [Ho Hr]. apply IH; [|exact Hr].
+  destruct o as [i x|]; cbn [apply_op]; [apply add_at_inv; tauto|apply clear_inv].
+Qed.
